@@ -43,6 +43,7 @@ class State:
         self.ghost = {}
         self.acc = None  # access log for race analysis: list of (mode, obj, idxterm, guard list)
         self.poison_reads = None
+        self.fork_epoch = 0  # logical time of the latest fork in this state's history (see values._Clock)
 
     def fork(self):
         s = State.__new__(State)
@@ -54,6 +55,8 @@ class State:
         s.ghost = dict(self.ghost)
         s.acc = self.acc  # shared log (analysis collects over all paths)
         s.poison_reads = self.poison_reads
+        from .values import _Clock
+        s.fork_epoch = self.fork_epoch = _Clock.tick()
         return s
 
     def assume(self, f):
